@@ -118,3 +118,18 @@ def str_query_from_seq_pairs(items):
             out = piece if first else out + "&" + piece
             first = False
     return out
+
+
+def update_query_trivial(u, args):
+    """C12, the forms of update_query that need no multi-dict: None clears the query, an empty
+    argument leaves everything as it is, bytes-like and other non-query values are TypeErrors"""
+    if len(args) != 1:
+        raise ValueError("Either kwargs or single query parameter must be present")
+    q = args[0]
+    if q is None:
+        return U(u.scheme, u.netloc, u.path, "", u.fragment)
+    if isinstance(q, (bytes, bytearray, memoryview)):
+        raise TypeError("Invalid query type: bytes, bytearray and memoryview are forbidden")
+    if isinstance(q, (str, dict, list, tuple)) and len(q) == 0:
+        return U(u.scheme, u.netloc, u.path, u.query, u.fragment)
+    raise TypeError("Invalid query type")
